@@ -141,7 +141,7 @@ def scenario(ctx, backend, cases, rnd, trace, run_id, quick):
         stats["replies"] = sum(1 for e in trace if e.get("ev") == "recv")
         for t in (main, other, shortl):
             if not t.alive():
-                raise ToolError("tracker %s died during the scenario: %s" % (t.name, t.stderr()[-400:]))
+                trace.append({"ev": "tracker_died", "name": t.name, "stderr": t.stderr()[-600:]})
     finally:
         if drv:
             drv.close()
